@@ -96,11 +96,21 @@ impl<'a> Gen<'a> {
                 _ => rawstate::lp(format!("contract_data/{}", me).as_bytes()),
             };
         }
-        const KEYS: [&[u8]; 9] = [b"", b"a", b"b", b"k", &[0x00], &[0xFF], &[0xFF, 0xFF], b"a\x00", b"ab"];
+        const KEYS: [&[u8]; 12] = [b"", b"a", b"b", b"k", &[0x00], &[0xFF], &[0xFF, 0xFF], b"a\x00", b"ab", b"pppppppp\x7f", b"pppppppp\x80", b"pppppppp"];
         self.rng.pick(&KEYS).to_vec()
     }
 
+    /// A name whose length sits on a power-of-two boundary (one byte, two bytes of length).
+    fn long_name(&mut self) -> String {
+        let n = *self.rng.pick(&[255usize, 256, 257, 258, 511, 512, 513, 65_535, 65_536, 65_537]);
+        let c = *self.rng.pick(&['e', 'k', 'z']);
+        std::iter::repeat(c).take(n).collect()
+    }
+
     fn attr_key(&mut self) -> String {
+        if self.pct(1) {
+            return self.long_name();
+        }
         if self.pct(self.p.bad_attr_pct) {
             self.rng.pick(&["", " ", "\t\n", "_", " _x", "_ ", "_reserved", "\u{00A0}", "\u{2003}\u{3000}", "  _", "_contract_address"]).to_string()
         } else {
@@ -112,6 +122,7 @@ impl<'a> Gen<'a> {
     /// Values are never judged: every one of them must surface unchanged.
     fn attr_value(&mut self) -> String {
         match self.rng.below(14) {
+            0 if self.pct(20) => self.long_name(),
             0 => "v".repeat(600),
             1 => "_reserved".to_string(),
             2 => "  padded  ".to_string(),
@@ -122,6 +133,9 @@ impl<'a> Gen<'a> {
     }
 
     fn event_type(&mut self) -> String {
+        if self.pct(2) {
+            return self.long_name();
+        }
         if self.pct(self.p.bad_attr_pct) {
             self.rng.pick(&["", "a", " a ", "\u{00A0}a", " ", "\t", "x"]).to_string()
         } else {
@@ -352,6 +366,14 @@ impl<'a> Gen<'a> {
         if self.pct(12) {
             return a.to_uppercase();
         }
+        if self.pct(10) {
+            // white space around an address makes another string of it
+            return match self.rng.below(3) {
+                0 => format!(" {}", a),
+                1 => format!("{} ", a),
+                _ => format!("{}\n", a),
+            };
+        }
         if self.pct(25) {
             // the same bytes under the other checksum variant (valid on a chain with the other codec, never here)
             let other = if m.api == ApiKind::Bech32m { ApiKind::Bech32 } else { ApiKind::Bech32m };
@@ -379,6 +401,11 @@ impl<'a> Gen<'a> {
         if self.p.opaque_pct > 0 && self.pct(self.p.opaque_pct) {
             self.nodes_left = self.nodes_left.saturating_sub(1);
             return Msg::Opaque(self.opaque());
+        }
+        // now and then a wasm message whose payload the contract cannot read (empty, not JSON, JSON of another shape)
+        if self.pct(2) {
+            self.nodes_left = self.nodes_left.saturating_sub(1);
+            return self.garbled(m, sender);
         }
         let r = self.rng.below(100);
         let reg = self.p.registry_pct;
@@ -469,6 +496,23 @@ impl<'a> Gen<'a> {
             _ => {}
         }
         v
+    }
+
+    fn garbled(&mut self, m: &ChainM, sender: &str) -> Msg {
+        let bytes = Binary::from(match self.rng.below(6) {
+            0 | 1 => vec![],
+            2 => b"{}".to_vec(),
+            3 => b"null".to_vec(),
+            4 => b"not json".to_vec(),
+            _ => b"{\"tag\":\"seven\"}".to_vec(),
+        });
+        let ids: Vec<u64> = m.codes.keys().copied().collect();
+        let code_id = if ids.is_empty() { 1 } else { *self.rng.pick(&ids) };
+        // migrations preferably of a contract this sender administers (everything else about the message is in order)
+        let mine: Vec<String> = m.st.contracts.iter().filter(|(_, c)| c.admin.as_deref() == Some(sender)).map(|(a, _)| a.clone()).collect();
+        let kind = self.rng.below(3) as u8;
+        let addr = if kind == 2 && !mine.is_empty() { self.rng.pick(&mine).clone() } else { self.target(m) };
+        Msg::Garbled { kind, addr, code_id, bytes }
     }
 
     pub fn inst(&mut self, m: &ChainM, sender: &str, depth_left: usize) -> Msg {
@@ -701,7 +745,7 @@ match self.rng.below(8) {
 
     fn fix_admin_sender(&mut self, m: &ChainM, sender: String, msg: Msg) -> (String, Msg) {
         let addr = match &msg {
-            Msg::Migrate { addr, .. } | Msg::UpdateAdmin { addr, .. } | Msg::ClearAdmin { addr } => addr.clone(),
+            Msg::Migrate { addr, .. } | Msg::UpdateAdmin { addr, .. } | Msg::ClearAdmin { addr } | Msg::Garbled { kind: 2, addr, .. } => addr.clone(),
             _ => return (sender, msg),
         };
         if self.pct(60) {
